@@ -19,6 +19,7 @@ import numpy as np
 import common
 from common import case_rng, fl, fll, f2b, b2f, same_vec, same_float, parse_reply, dyadic, gfloat
 import dsl, framework, leandrv, solvergen
+import c08_brent as B
 from framework import Finding
 
 PID = "C08"
@@ -637,14 +638,14 @@ def run_powell(which, c):
     import mystic.scipy_optimize as SO
     from mystic import _scipy060optimize as REF
     mod = SO if which == "mystic" else REF
-    calls = []; outside = []; ls_log = []; cbs = []
+    calls = []; outside = []; ls_log = []; cbs = []; events = []
     state = {"in_ls": False}
     e = c["expr"]
 
     def cost(x):
         xv = vec(x); y = dsl.ev(e, xv); calls.append((xv, y))
         if not state["in_ls"]:
-            outside.append((xv, y))
+            outside.append((xv, y)); events.append(("ext", xv, y))
         return y
     orig = mod._linesearch_powell
 
@@ -655,6 +656,7 @@ def run_powell(which, c):
             fret, xn, xin = orig(func, p, xi, tol=tol, maxiter=maxiter) if which == "mystic" else orig(func, p, xi, tol=tol)
         finally:
             state["in_ls"] = False
+        events.append(("ls", len(ls_log)))
         ls_log.append({"p": p0, "xi": xi0, "fret": float(fret), "x": vec(xn), "xin": vec(xin), "n": len(calls) - n0, "tol": float(tol)})
         return fret, xn, xin
     mod._linesearch_powell = ls
@@ -668,7 +670,7 @@ def run_powell(which, c):
     finally:
         mod._linesearch_powell = orig
     return {"x": vec(x), "f": float(f), "iter": int(it), "fcalls": int(fc), "warn": int(wf), "direc": [vec(r) for r in np.atleast_2d(direc)],
-            "ncalls": len(calls), "ls": ls_log, "cbs": cbs, "outside": outside,
+            "ncalls": len(calls), "ls": ls_log, "cbs": cbs, "outside": outside, "events": events,
             "nan": any(y != y or abs(y) == math.inf for _, y in calls)}
 
 
@@ -766,6 +768,109 @@ def powell_compare(tag, real, reply, hist):
         diffs.append("direction set model=%r impl=%r" % (md, real["direc"]))
     if diffs:
         return [("fmin_powell/%s/diverges" % tag, "; ".join(diffs)[:1500])]
+    return []
+
+
+def powell_rule_monitor(tag, c, r, hist):
+    """Powell's bookkeeping checked DIRECTLY on one real run's timeline (cost calls outside line searches and the line
+    searches, in order): every sweep searches the current direction set in order from the current point; the
+    extrapolated point is 2*x - x1; a direction is replaced exactly when fx > fx2 and t < 0 (the code's expression), the
+    extra search runs along x - x1 from x, and afterwards direc[bigind] = direc[-1], direc[-1] = the scaled direction,
+    with bigind the FIRST direction of largest decrease.  Counts the exact-equality branches (t == 0, tied decreases)."""
+    out = []
+    ev = r["events"]; N = c["dim"]
+    if not ev or ev[0][0] != "ext" or not r["ls"]:
+        return out
+    direc = [list(d) for d in (c["direc"] if c["direc"] is not None else [[1.0 if i == j else 0.0 for j in range(N)] for i in range(N)])]
+    x = np.array(ev[0][1]); fval = ev[0][2]; x1 = x.copy()
+    # segments between cost calls made outside line searches
+    segs = []; cur = []
+    for e in ev[1:]:
+        if e[0] == "ext":
+            segs.append((cur, e)); cur = []
+        else:
+            cur.append(r["ls"][e[1]])
+    segs.append((cur, None))
+    pending = None          # (fx, fx2, t, x, x1, bigind) of the extrapolation that precedes this segment
+    key = "fmin_powell" if tag == "mystic" else "reference-fmin_powell"
+    for searches, ext in segs:
+        if pending is not None:
+            fx, fx2, t, xe, x1old, bigind = pending
+            want = (fx > fx2) and (t < 0.0)
+            if len(searches) not in (N, N + 1):
+                out.append(("%s/sweep-length" % key, "%d line searches between two extrapolations (N=%d)" % (len(searches), N)))
+                return out
+            got = len(searches) == N + 1
+            if got != want:
+                out.append(("%s/extrapolation-test" % key, "fx=%r fx2=%r t=%r: direction %s replaced" % (fx, fx2, t, "WAS" if got else "was NOT")))
+                return out
+            if got:
+                q = searches[0]; searches = searches[1:]
+                d1 = vec(xe - x1old)
+                if not (same_vec(q["p"], vec(xe)) and same_vec(q["xi"], d1)):
+                    out.append(("%s/extrapolation-search" % key, "the extra search started at %r along %r, expected %r along x - x1 = %r" % (q["p"], q["xi"], vec(xe), d1)))
+                    return out
+                direc[bigind] = direc[-1]; direc[-1] = list(q["xin"])
+                x = np.array(q["x"]); fval = q["fret"]
+                hadd(hist, "powell:%s:replaced-direction:%s" % (tag, "last" if bigind == N - 1 else ("first" if bigind == 0 else "middle")))
+        elif len(searches) != N:
+            out.append(("%s/sweep-length" % key, "first sweep made %d line searches (N=%d)" % (len(searches), N)))
+            return out
+        fx = fval; delta = 0.0; bigind = 0; decs = []
+        for j, q in enumerate(searches):
+            if not (same_vec(q["p"], vec(x)) and same_vec(q["xi"], direc[j])):
+                out.append(("%s/sweep-direction" % key, "search %d of a sweep: from %r along %r, expected from %r along direc[%d] = %r"
+                            % (j, q["p"], q["xi"], vec(x), j, direc[j])))
+                return out
+            f2 = fval; fval = q["fret"]; x = np.array(q["x"])
+            decs.append(f2 - fval)
+            if (f2 - fval) > delta:
+                delta = f2 - fval; bigind = j
+        if delta > 0.0 and sum(1 for dd in decs if dd == delta) > 1:
+            hadd(hist, "powell:%s:tied-largest-decrease" % tag)
+        if ext is None:
+            break
+        x2 = 2 * x - x1
+        if not same_vec(ext[1], vec(x2)):
+            out.append(("%s/extrapolated-point" % key, "cost called at %r, 2*x - x1 = %r" % (ext[1], vec(x2))))
+            return out
+        fx2 = ext[2]
+        t = None
+        if fx > fx2:
+            t = 2.0 * (fx + fx2 - 2.0 * fval); temp = (fx - fval - delta); t *= temp * temp; temp = fx - fx2; t -= delta * temp * temp
+            hadd(hist, "powell:%s:t%s" % (tag, "<0" if t < 0.0 else ("==0" if t == 0.0 else ">0")))
+        else:
+            hadd(hist, "powell:%s:fx<=fx2%s" % (tag, "(equal)" if fx == fx2 else ""))
+        pending = (fx, fx2, t if t is not None else 0.0, x, x1, bigind)
+        x1 = x.copy()
+    final = r["direc"]
+    if len(final) != len(direc) or not all(same_vec(a, b) for a, b in zip(final, direc)):
+        out.append(("%s/direction-set" % key, "returned direction set %r, bookkeeping gives %r" % (final, direc)))
+    return out
+
+
+def powellb_request(which, c, r):
+    N = c["dim"]
+    mi = c["maxiter"] if c["maxiter"] is not None else N * 1000
+    mf = c["maxfun"] if c["maxfun"] is not None else N * 1000
+    direc = c["direc"] if c["direc"] is not None else [[1.0 if i == j else 0.0 for j in range(N)] for i in range(N)]
+    return "C08 powellb (which %s) (cost (scalar %s)) (x0 %s) (direc %s) (xtol %s) (ftol %s) (maxiter %d) (maxfun %d) (imax 500) (fuel %d)" % (
+        which, dsl.expr_sexp(c["expr"]), fl(c["x0"]), fll(direc), f2b(c["xtol"]), f2b(c["ftol"]), mi, mf, r["iter"] + 3)
+
+
+def powellb_compare(tag, real, reply, hist):
+    """the whole run reproduced from x0 alone (modelled Brent): everything powell_compare checks + every line search's
+    returned value and number of cost calls"""
+    res = powell_compare(tag, real, reply, hist)
+    if res:
+        return res
+    d = parse_reply(reply)[1]
+    mf = [b2f(t) for t in d["frets"]]; mn = [int(t) for t in d["ncalls"]]
+    rf = [q["fret"] for q in real["ls"]]; rn = [q["n"] for q in real["ls"]]
+    if not (len(mf) == len(rf) and all(feq(a, b) for a, b in zip(mf, rf)) and mn == rn):
+        i = next((i for i in range(min(len(mf), len(rf))) if not (feq(mf[i], rf[i]) and mn[i] == rn[i])), min(len(mf), len(rf)))
+        return [("fmin_powell/%s/line-search-diverges" % tag, "line search %d: model fret=%r calls=%r ; implementation fret=%r calls=%r"
+                 % (i, mf[i] if i < len(mf) else None, mn[i] if i < len(mn) else None, rf[i] if i < len(rf) else None, rn[i] if i < len(rn) else None))]
     return []
 
 
@@ -906,11 +1011,51 @@ def run_shard(pid, seed, shard, ncases, tier, extra):
         if a["nan"] or b["nan"]:
             continue
         lines.append(powell_request("ref", c, b)); handlers.append(("powell", ("ref-vs-transcription", b), case))
+        lines.append(powellb_request("ref", c, b)); handlers.append(("powellb", ("ref-from-x0(modelled-brent)", b), case))
         started = (c["maxfun"] is None or c["maxfun"] > 1) and (c["maxiter"] is None or c["maxiter"] > 0)
         if started:
             lines.append(powell_request("mystic", c, a)); handlers.append(("powell", ("mystic-vs-model", a), case))
+            lines.append(powellb_request("mystic", c, a)); handlers.append(("powellb", ("mystic-from-x0(modelled-brent)", a), case))
+        for tg, rr in (("mystic", a), ("ref", b)):
+            for key, what in powell_rule_monitor(tg, c, rr, hist):
+                findings.append(Finding("monitor", key, what, case))
         if len(samples) < 4 and nt and len(b["ls"]) > c["dim"] * b["iter"]:
             samples.append(case)
+    # ---------------- Brent: bracket / brent on 1-D functions, _linesearch_powell in n-D (Model/Brent.lean)
+    for stream, mult in (("bracket", 2), ("brent", 4), ("lsp", 2)):
+        for k in range(ncases * mult):
+            if only and only != (stream, k):
+                continue
+            rng = case_rng(PID + "/" + stream, seed, shard, k)
+            if stream == "bracket":
+                c = B.bracket_case(rng, tier); real = B.run_bracket(c); line = B.bracket_request(c)
+                res = B.bracket_monitor(c, real, hist)
+            elif stream == "brent":
+                c = B.brent_case(rng, tier); real = B.run_brent(c); line = B.brent_request(c)
+                hadd(hist, "brent:fn:%s" % c["kind"].split("+")[0]); hadd(hist, "brent:brack:%s" % ("none" if c["brack"] is None else len(c["brack"])))
+                if c["box"] is not None:
+                    hadd(hist, "brent:strict-range(+inf outside)")
+                res = B.brent_monitor("brent", c, real, hist, c["brack"] is None)
+            else:
+                c = B.lsp_case(rng, tier); real = B.run_lsp(c); line = B.lsp_request(c)
+                res = B.lsp_monitor(c, real, hist)
+            evals += 1
+            case = dict(ident(stream, k)); case.update({kk: (dsl.expr_sexp(v) if kk == "expr" else v) for kk, v in c.items()})
+            case["result"] = {kk: v for kk, v in real.items() if kk not in ("log", "pts")}; case["nevals"] = len(real["log"])
+            if real["exc"] == "dsl" or real["exc"].startswith("other:"):
+                hadd(hist, "%s:skipped:%s" % (stream, real["exc"]))
+                if real["exc"] != "dsl":
+                    findings.append(Finding("monitor", "%s/raises/%s" % (stream, real["exc"][6:]), "raised %s" % real["exc"], case))
+                continue
+            for key, what in res:
+                findings.append(Finding("monitor", key, what, case))
+            if real["exc"] == "none" and len(real["log"]) >= 6:
+                nontrivial += 1
+            if any(abs(v) == math.inf for _, v in real["log"]):
+                hadd(hist, "%s:inf-values" % stream)
+            lines.append(line); handlers.append((stream, (c, real), case))
+            if len(samples) < 6 and stream == "lsp" and real["exc"] == "none" and len(real["log"]) > 8:
+                samples.append(case)
     replies = leandrv.run_driver(lines) if lines else []
     for (kind, obj, case), line, rep in zip(handlers, lines, replies):
         if kind == "strat":
@@ -919,6 +1064,14 @@ def run_shard(pid, seed, shard, ncases, tier, extra):
             res = fmin_compare(obj[0], obj[1], rep, hist)
         elif kind == "powell":
             res = powell_compare(obj[0], obj[1], rep, hist)
+        elif kind == "powellb":
+            res = powellb_compare(obj[0], obj[1], rep, hist)
+        elif kind == "bracket":
+            res = B.bracket_compare(obj[0], obj[1], rep, hist)
+        elif kind == "brent":
+            res = B.brent_compare("brent", obj[1], rep, hist)
+        elif kind == "lsp":
+            res = B.brent_compare("linesearch", obj[1], rep, hist)
         elif kind == "nmsteps":
             import solvermodel
             res = obj(rep)
